@@ -64,8 +64,8 @@ Theorem C14_add_remove_meaning : forall j a t,
 Proof. exact (fun j a t => conj (add_registers j a t) (conj (add_keeps_others j a t) (conj (rem_unregisters j t) (rem_keeps_others j t)))). Qed.
 Print Assumptions C14_add_remove_meaning.
 
-(* with D20 repaired, add_done_callback on any run whose body is executing registers the callback *)
-Theorem C14_add_registers_on_running : forall cfg, d_service_no_cbrec cfg = false ->
+(* with D20 and D143 repaired, add_done_callback on any run whose body is executing registers the callback *)
+Theorem C14_add_registers_on_running : forall cfg, d_service_no_cbrec cfg = false -> d_shutdown_no_cbrec cfg = false ->
   forall ls s t x j a, run cfg ls = Some s -> running s t = true -> phase_of s x = PBody ->
   exists tb, st_cb s x = Some tb /\ step cfg s (LAdd t x j a) = Some (set_cb s x (Some (tbl_add j a tb))).
 Proof. exact add_registers_on_running. Qed.
@@ -106,26 +106,26 @@ Print Assumptions C14_reaper_serialises.
 (* ---- the code as it is violates the conformant statements: one witness per open finding ---- *)
 Local Open Scope N_scope.
 Theorem C14_refuted_D22 :
-  exists s, run (mkDev true false false false false) wit_d22 = Some s /\ phase_of s 0 = PDone /\
+  exists s, run (mkDev true false false false false false) wit_d22 = Some s /\ phase_of s 0 = PDone /\
             tbl_live (tr_snap (st_task s 0)) = [(0, 5); (1, 6)]%N /\ calls s 0 = [(0, 5)]%N.
 Proof. exact refuted_D22. Qed.
 Print Assumptions C14_refuted_D22.
 
 Theorem C14_refuted_D20 :
-  exists s0 s, run (mkDev false true false false false) (firstn 2 wit_d20) = Some s0 /\ running s0 0 = true /\ phase_of s0 0 = PBody /\
-               run (mkDev false true false false false) wit_d20 = Some s /\ st_cb s 0 = None /\ tr_out (st_task s 0) = Some ORaise.
+  exists s0 s, run (mkDev false true false false false false) (firstn 2 wit_d20) = Some s0 /\ running s0 0 = true /\ phase_of s0 0 = PBody /\
+               run (mkDev false true false false false false) wit_d20 = Some s /\ st_cb s 0 = None /\ tr_out (st_task s 0) = Some ORaise.
 Proof. exact refuted_D20. Qed.
 Print Assumptions C14_refuted_D20.
 
 Theorem C14_refuted_D140 :
-  exists s, run (mkDev false false true false false) wit_d140 = Some s /\ phase_of s 0 = PDone /\
+  exists s, run (mkDev false false true false false false) wit_d140 = Some s /\ phase_of s 0 = PDone /\
             st_ours s 0 = true /\ st_cb s 0 <> None /\ st_ctx s 0 = true /\ st_t2n s 0 <> None /\ st_n2t s 3 = Some 0%N /\
             calls s 0 = [(0, 5)]%N /\ tr_out (st_task s 0) = Some (ORet (Some 7%N)) /\ tr_final (st_task s 0) = Some OCancel.
 Proof. exact refuted_D140. Qed.
 Print Assumptions C14_refuted_D140.
 
 Theorem C14_refuted_D141 :
-  exists s, run (mkDev false false false true false) wit_d141 = Some s /\ phase_of s 0 = PDone /\
+  exists s, run (mkDev false false false true false false) wit_d141 = Some s /\ phase_of s 0 = PDone /\
             st_ours s 0 = true /\ st_cb s 0 <> None /\ st_ctx s 0 = true /\
             calls s 0 = [(0, 5)]%N /\ tr_final (st_task s 0) = Some OEscape.
 Proof. exact refuted_D141. Qed.
@@ -134,7 +134,7 @@ Print Assumptions C14_refuted_D141.
 (* D142: the blocking caller of a cancelled service run ends cancelled without any cancellation delivered to it; with the
    switch off no such step exists *)
 Theorem C14_refuted_D142 :
-  exists s, run (mkDev false false false false true) wit_d142 = Some s /\ phase_of s 0 = PDone /\
+  exists s, run (mkDev false false false false true false) wit_d142 = Some s /\ phase_of s 0 = PDone /\
             tr_final (st_task s 0) = Some OCancel /\ tr_ncancel (st_task s 0) = 0%nat.
 Proof. exact refuted_D142. Qed.
 Print Assumptions C14_refuted_D142.
@@ -142,10 +142,16 @@ Theorem C14_callee_cancel_spares_caller : forall cfg s t x, d_call_cancel_kills 
 Proof. exact callee_cancel_spares_caller. Qed.
 Print Assumptions C14_callee_cancel_spares_caller.
 
+Theorem C14_refuted_D143 :
+  exists s0 s, run (mkDev false false false false false true) (firstn 2 wit_d143) = Some s0 /\ running s0 0 = true /\ st_ctx s0 0 = true /\
+               run (mkDev false false false false false true) wit_d143 = Some s /\ st_cb s 0 = None /\ tr_out (st_task s 0) = Some ORaise.
+Proof. exact refuted_D143. Qed.
+Print Assumptions C14_refuted_D143.
+
 (* the hypothesis of C14_independent_enabled is necessary *)
 Theorem C14_independent_refuted_D141 :
   exists s1 s2, st_task s1 0%N = st_task s2 0%N /\
-    (exists s', step (mkDev false false false true false) s1 (LExit 0) = Some s' /\ st_cb s' 0 = None) /\
-    (exists s', step (mkDev false false false true false) s2 (LExit 0) = Some s' /\ st_cb s' 0 <> None).
+    (exists s', step (mkDev false false false true false false) s1 (LExit 0) = Some s' /\ st_cb s' 0 = None) /\
+    (exists s', step (mkDev false false false true false false) s2 (LExit 0) = Some s' /\ st_cb s' 0 <> None).
 Proof. exact independent_needs_D141_off. Qed.
 Print Assumptions C14_independent_refuted_D141.
